@@ -81,6 +81,46 @@ fn main() {
                 }
             }
         }
+        "fuzzcase" => {
+            // vcheck fuzzcase <C04|C16> <artifact>: turn a libFuzzer artifact into a replay file through the plain oracle
+            let id = args[2].clone();
+            let data = std::fs::read(&args[3]).expect("read artifact");
+            let v = if id == "C04" {
+                match vharness::props::c04::decode_fuzz_input(&data) {
+                    Some(c) => match vharness::props::c04::exec(&c) {
+                        Err(m) => Some(Violation::new("C04", "untrusted-input", m, serde_json::to_value(&c).unwrap())),
+                        Ok(_) => None,
+                    },
+                    None => None,
+                }
+            } else {
+                match vharness::props::c16::decode_fuzz(&data) {
+                    Err(m) => Some(Violation::new("C16", "decoder-bytes", m, serde_json::json!({"bytes": hex::encode(&data)}))),
+                    Ok(()) => None,
+                }
+            };
+            match v {
+                Some(v) => {
+                    let body = serde_json::to_string_pretty(&v).unwrap();
+                    let dir = format!("/verif/replays/{id}");
+                    let _ = std::fs::create_dir_all(&dir);
+                    let path = format!("{dir}/fuzz-{:016x}.json", fnv64(&[body.as_bytes()]));
+                    std::fs::write(&path, body + "\n").expect("write replay");
+                    println!("violation detail: {}", v.message);
+                    println!("VIOLATION property={id} replay={path}");
+                    std::process::exit(1);
+                }
+                None => {
+                    eprintln!("INCONCLUSIVE: the fuzzer artifact does not reproduce through the plain oracle (sanitizer-only finding or flaky); artifact kept at {}", args[3]);
+                    std::process::exit(2);
+                }
+            }
+        }
+        "corpus" => {
+            let n = vharness::props::c04::write_seed_corpus(&args[2]).expect("write corpus");
+            println!("wrote {n} seed files to {}", args[2]);
+            std::process::exit(0);
+        }
         "transcript" => {
             let seed: u64 = args[2].parse().unwrap_or(1);
             let tier = if args[3] == "thorough" { Tier::Thorough } else { Tier::Quick };
